@@ -253,6 +253,10 @@ def registry_oracle(script, impl):
                 s.reg = {}
             if out != want:
                 bad(ws, out, want)
+        elif op == 'batchbad':
+            # refused as a whole, nothing applied, and the handler's own transaction is ended (the probe that follows shows it)
+            if out != 'err invalid':
+                bad(ws, out, 'err invalid')
         elif op == 'probe':
             if s.free():
                 if out != 'probe ok':
